@@ -118,8 +118,15 @@ def render(t, role):
     return k
 
 
+ARROW_VOCAB = ("for_case", "for_disconnect", "free", "sum", "product", "unit", "two_two_n", "unify", "bind_product", "bind_sum", "check_eq",
+               "shallow_clone", "to_type", "source_ty", "target_ty")
+_FACTS = [None]
+
+
 def shape_of(fn, role):
     """(source, target, [constraints]) of the Arrow a function builds."""
+    if _FACTS[0] is not None:
+        fn = _FACTS[0].inlined(fn, ARROW_VOCAB)   # private same-file helpers are spliced in
     T = Terms(fn)
     T.site_names = {"free"}
     src = tgt = None
@@ -190,6 +197,7 @@ def run(ctx, rep):
     rep.rule("C04.rec", "recursion inside type inference is reviewed")
 
     # ------------------------------------------------------------------ rules
+    _FACTS[0] = F
     arrow_methods = {}
     for f in F.fns.values():
         if f.impl_adt == ARROW and f.impl_trait in vcc.CONSTRUCTIBLE_TRAITS and f.name in vcc.VARIANT_OF:
